@@ -690,6 +690,63 @@ func VerifC07_DirectStartLeavesNoQueueEntry() {
 	rt.Reach("directstart-end")
 }
 
+// the schedule handler wakes up on a stale timer (the entry it was armed for
+// has been unscheduled in the meantime) and finds the max-delay entry of a
+// task that waits in the queue behind a running one, not yet due: it leaves
+// it alone
+func VerifC07_StaleTimerLeavesQueuedTaskAlone() {
+	rt.SchedYieldOnly(true)
+	m := c07Reset()
+	u := 10 * time.Second
+	if !rt.Symbolic() {
+		u = 100 * time.Millisecond
+	}
+	bRunning := false
+	wRuns := 0
+	gate := make(chan struct{})
+	b := m.NewTask("b", func(context.Context, *Task) error {
+		bRunning = true
+		<-gate
+		bRunning = false
+		return nil
+	}).MaxDelay(0)
+	w := m.NewTask("w", func(context.Context, *Task) error {
+		wRuns++
+		rt.Assert(!bRunning, "staletimer/not-started-while-the-slot-is-taken")
+		return nil
+	}).MaxDelay(4 * u)
+	third := m.NewTask("third", func(context.Context, *Task) error { return nil })
+	go func() {
+		for {
+			taskTimeslot <- struct{}{}
+		}
+	}()
+	go taskQueueHandler()
+	go taskScheduleHandler()
+	b.Queue()
+	time.Sleep(u / 8)
+	rt.Assert(bRunning, "staletimer/slot-taken")
+	switch rt.Choice("submit", 3) {
+	case 0:
+		w.Queue()
+	case 1:
+		w.QueuePrioritized()
+	case 2:
+		w.StartASAP()
+	}
+	// a third task is scheduled for soon and unscheduled again: the schedule
+	// handler's timer stays armed for that time
+	third.Schedule(time.Now().Add(u))
+	time.Sleep(u / 8)
+	third.Schedule(time.Time{})
+	time.Sleep(2 * u) // the stale timer has fired
+	rt.Assert(wRuns == 0, "staletimer/queued-task-waits-for-the-slot")
+	close(gate)
+	time.Sleep(u)
+	rt.Assert(wRuns == 1, "staletimer/queued-task-runs-afterwards")
+	rt.Reach("staletimer-end")
+}
+
 // ---- O5: no self-overlap when re-queued while executing; the re-submission is not lost ----
 
 func VerifC07_NoSelfOverlap() {
